@@ -78,7 +78,20 @@ def showReal (hist : List Msg) : String :=
     if ids.isEmpty then none else some (s!"{t}:" ++ ".".intercalate (ids.map toString))
   if parts.isEmpty then "-" else ";".intercalate parts
 
+def chainOf (which : String) : Option (List String) :=
+  if which = "dkg" then some Gen.C15.dkgChain
+  else if which = "signing" then some Gen.C15.signingChain else none
+
+def ones (n : Nat) : String := showList (List.replicate n 1)
+
+/-- the real chain read from the sources, every `Next` handing the one history over -/
+def chainLine (types : List String) : String :=
+  s!"types={showList types} kept={ones types.length} same={ones types.length} end=nil"
+
 def model (line : String) : String :=
+  match splitWs line with
+  | ["chain", w] => (match chainOf w with | some t => chainLine t | none => "bad-op")
+  | _ =>
   match parseOp line with
   | none => "bad-op"
   | some (specs, evs) =>
@@ -112,6 +125,12 @@ def parseOut (s : String) : Option Outcome :=
   | _ => none
 
 def monitor (op obs : String) : String :=
+  match splitWs op with
+  | ["chain", w] =>
+    (match chainOf w with
+     | some t => if obs = chainLine t then "ok" else "FAIL real-chain-does-not-hand-over-one-history-or-differs-from-sources"
+     | none => if obs = "bad-op" then "ok" else "FAIL bad-op")
+  | _ =>
   match parseOp op with
   | none => if obs = "bad-op" then "ok" else "FAIL bad-op"
   | some _ =>
